@@ -94,12 +94,15 @@ func firstDiff(a, b string) string {
 // Outcome of executing a scenario.
 type Outcome struct {
 	Violations []Violation
+	// Records: the step records of every variant ("setup" included), for
+	// record-then-inject fault enumeration.
+	Records map[string][]*StepRecord
 }
 
 // ExecuteScenario runs a materialised scenario from scratch. It is the single
 // entry point used by exploration, minimisation and replay.
 func ExecuteScenario(env *Env, sc *Scenario) (out *Outcome, err error) {
-	out = &Outcome{}
+	out = &Outcome{Records: map[string][]*StepRecord{}}
 	switch sc.Kind {
 	case "infl":
 		vs, err := executeInfl(env, sc)
@@ -125,6 +128,7 @@ func ExecuteScenario(env *Env, sc *Scenario) (out *Outcome, err error) {
 	}
 	setup.Close()
 	out.Violations = append(out.Violations, setup.Viol...)
+	out.Records["setup"] = setup.Steps
 
 	if sc.Kind == "universe" {
 		vs, err := executeUniverse(env, sc, mroot)
@@ -156,6 +160,7 @@ func ExecuteScenario(env *Env, sc *Scenario) (out *Outcome, err error) {
 			return nil, err
 		}
 		out.Violations = append(out.Violations, x.Viol...)
+		out.Records[v.Name] = x.Steps
 		results = append(results, result{genState(vroot, sc.Module, sc.Base), callSeq(x.Steps), x})
 	}
 
@@ -205,6 +210,9 @@ func ExecuteScenario(env *Env, sc *Scenario) (out *Outcome, err error) {
 	case "compare-recovery":
 		// C02 E4: after recovery the faulty variants hold the same outputs as the never-failed one
 		for vi := 1; vi < len(results); vi++ {
+			if results[vi].x.wedged {
+				continue // already reported as wedged-load-fails; the history stopped there
+			}
 			if f, why := diffStates(results[0].state, results[vi].state); f != "" {
 				out.Violations = append(out.Violations, Violation{Property: "C02", Oracle: "E4", Class: "recovered-state-differs",
 					Detail: fmt.Sprintf("never-failed vs %s: %s: %s", sc.Variants[vi].Name, f, why), Variant: sc.Variants[vi].Name})
